@@ -53,9 +53,11 @@ def judge_input(ctx, case, cfgd, cfg, T, inp, mask_len_L):
 
     # 1. every cut point
     cuts = list(range(c))
-    if not ctx.thorough and len(cuts) > MAX_CUTS_QUICK:
+    limit = MAX_CUTS_QUICK if not ctx.thorough else 600
+    if len(cuts) > limit:
+        MAXC = limit
         rng = ctx.rng("cuts", case["text"], inp.hex())
-        keep = set(rng.sample(cuts, MAX_CUTS_QUICK - 10)) | set(cuts[:5]) | set(cuts[-5:])
+        keep = set(rng.sample(cuts, MAXC - 10)) | set(cuts[:5]) | set(cuts[-5:])
         if L is not None:
             keep |= {L, max(0, L - 1), min(c - 1, L + 1)}
         cuts = sorted(keep)
@@ -90,7 +92,13 @@ def judge_input(ctx, case, cfgd, cfg, T, inp, mask_len_L):
     run_stream(T, rec)
     nreads = len(rec.reads())
     failed_once = False
-    for j in range(nreads):
+    read_calls = list(range(nreads))
+    if nreads > 400:
+        # very long inputs: a sample of the read calls (first, last and random ones) instead of all of them
+        rs = ctx.rng("reads", case["text"], inp.hex()[:64])
+        read_calls = sorted(set(read_calls[:20]) | set(read_calls[-20:]) | set(rs.sample(read_calls, 200)))
+        ctx.event("read_calls_sampled")
+    for j in read_calls:
         for kind in ("empty", "half", "raise"):
             fs = FaultyStream(inp, 0, j, kind)
             r = run_stream(T, fs)
